@@ -5,6 +5,7 @@ CONSTANTS
   DEV_ReassignKeepsOld = FALSE
   DEV_RemoveNeedsLanelets = FALSE
   DEV_ForgetsCentre = TRUE
+  DEV_NetMoveKeepsIndex = FALSE
 INVARIANT InvInverseStatic
 INVARIANT InvInverseDynamic
 INVARIANT InvRemoveTotal
